@@ -47,6 +47,13 @@ def items(tier, seed):
         for B in ((0, 8) if tier == "quick" else (0, 4, 8)):
             out.append(Item("C05", "sym_network", dict(L=L, B=B, default_prefixes=False), budget_s=600, obligation="H2H3-every-network-of-a-length"))
     out.append(Item("C05", "sym_network", dict(L=12, B=8, default_prefixes=True), budget_s=900, obligation="H2H3-every-network-of-a-length"))
+    # ... next to fixed preserved networks (nested inside / containing / disjoint from the symbolic one), both list orders
+    for L, others in ((24, ["172.16.0.0/12", "9.9.9.9/32"]), (8, ["10.20.0.0/16", "200.1.2.0/24"])) if tier == "quick" else \
+            ((24, ["172.16.0.0/12", "9.9.9.9/32"]), (8, ["10.20.0.0/16", "200.1.2.0/24"]), (16, ["10.0.0.0/8", "172.16.0.0/12", "192.168.0.0/16"]), (30, ["200.1.2.128/25", "200.1.2.192/26"]),
+             (12, ["172.16.5.0/24"]), (32, ["8.8.8.0/24"])):
+        for first in (True, False):
+            out.append(Item("C05", "sym_network", dict(L=L, B=8 if L <= 24 else 0, default_prefixes=False, others=others, first=first), budget_s=900,
+                            obligation="H2H3-every-network-of-a-length-next-to-fixed-networks"))
     return out
 
 
@@ -164,6 +171,7 @@ def no_collision(item, res):
 def sym_network(item, res):
     """H2/H3 for *every* preserved network of a given prefix length (network bits symbolic)."""
     L, B, use_default = item.params["L"], item.params["B"], item.params["default_prefixes"]
+    others = item.params.get("others") or []
     F = fam()
     W = 32
     a, sa = ipc.sym_addr("a", W)
@@ -173,13 +181,17 @@ def sym_network(item, res):
     def h(ex_):
         top = z3.BitVec("net", L) if L else None
         net = SInt.unsigned(z3.Concat(top, z3.BitVecVal(0, 32 - L)) if L < 32 else top) if L else 0
-        an = F.ip.IpAnonymizer(ipc.SALT, None if use_default else [], [(net, L)], preserve_suffix=B)
+        nets = ([(net, L)] + list(others)) if item.params.get("first", True) else (list(others) + [(net, L)])
+        an = F.ip.IpAnonymizer(ipc.SALT, None if use_default else [], nets, preserve_suffix=B)
         ex_.path_data["top"] = top
-        inside = ex_.branch(ipc.in_sym_prefix(a, top, L))
+        inside_sym = ex_.branch(ipc.in_sym_prefix(a, top, L))
+        inside_fixed = [ex_.branch(in_networks_spec(a, [o])) for o in others]
+        inside = inside_sym or any(inside_fixed)
         masky = ex_.branch(mask_spec(a))
         should = an.should_anonymize(sa)
         r = ipc.out_bv(an.anonymize(sa), W)
-        bad = [z3.BoolVal(should != (not (inside or masky))), ipc.in_sym_prefix(r, top, L) != z3.BoolVal(inside)]
+        bad = [z3.BoolVal(should != (not (inside or masky))), ipc.in_sym_prefix(r, top, L) != z3.BoolVal(inside_sym)]
+        bad += [in_networks_spec(r, [o]) != z3.BoolVal(f) for o, f in zip(others, inside_fixed)]
         res["finals"] += 1
         m = ex_.model(z3.Or(*bad))
         if m is None:
@@ -193,7 +205,8 @@ def sym_network(item, res):
     def cfg_of(m, top):
         v = (ev(m, top) << (32 - L)) if L else 0
         import ipaddress
-        return dict(prefixes=None if use_default else [], networks=["%s/%d" % (ipaddress.IPv4Address(v), L)], B=B)
+        mine = ["%s/%d" % (ipaddress.IPv4Address(v), L)]
+        return dict(prefixes=None if use_default else [], networks=(mine + list(others)) if item.params.get("first", True) else (list(others) + mine), B=B)
     nval = 0
     for p in paths:
         if p.exc is not None and p.model is not None:
